@@ -63,6 +63,8 @@ def source_digest():
 
 
 def ensure(verbose=True):
+    if os.environ.get('VERIF_NOBUILD') == '1':   # mutation worktrees that are already built
+        return False
     os.makedirs(CACHE, exist_ok=True)
     lock = open(os.path.join(CACHE, 'build.lock'), 'w')
     fcntl.flock(lock, fcntl.LOCK_EX)
